@@ -115,7 +115,7 @@ def jobs(tier, seed=0):
     if not quick:
         for ordering in ("big", "little"):
             for nm, regs in [("st3+st9a_wfd+st1", [S(3, reset=5), S(9, atomic=True, wfd=True), S(1)]),
-                             ("st17_wfd+sta17rw", [S(17, wfd=True), T(17, wfd=True)]),
+                             ("st9_wfd+sta9rw", [S(9, wfd=True), T(9, wfd=True)]),
                              ("st8a+st9+raw3+sta1", [S(8, atomic=True), S(9), R(3), T(1)])]:
                 A(lambda nm=nm, regs=regs, ordering=ordering:
                   BankInst("bank8/%s/%s" % (ordering, nm), regs, bw=8, ordering=ordering, paging=0x20, address=1,
@@ -126,7 +126,7 @@ def jobs(tier, seed=0):
                            data_values=(0xA5A5, 0x5A5A), dev_values=(0x1C3C3C3C3,),
                            monitor_atomic=not is_atomic_little(ordering, regs, 16)))
         A(lambda: SramInst("sram/4x16-on-8/staging", 16, 4, paging=0x40, data_values=(0xA5,)))
-        A(lambda: SramInst("sram/8x8/paged2", 8, 8, paging=0x10))
+        A(lambda: SramInst("sram/8x8/paged2", 8, 8, paging=0x10, data_values=(0xA5,)))
         A(lambda: ArrayInst("array/little/2banks+mem/2masters",
                             [("a", [S(9, atomic=True)], []), ("b", [T(3)], [(8, 2, False, None)])],
                             {"a": 0, "b": 2}, {("b", 0): 3}, bw=8, ordering="little", paging=0x20, nmasters=2,
@@ -153,7 +153,7 @@ def jobs(tier, seed=0):
                         {"a": 1, "b": 2}, {}, bw=8, ordering="big", paging=0x20, nmasters=2, data_values=(0xA5,)))
     # ---- B
     hv = harvest()
-    BA = lambda mk: J.append(Job("B", mk, cycles=1000 if quick else 10000, runs=1 if quick else 3))
+    BA = lambda mk: J.append(Job("B", mk, cycles=1000 if quick else 4000, runs=1 if quick else 2))
     for bw in (8, 32):
         for ordering in ("big", "little"):
             BA(lambda bw=bw, ordering=ordering:
@@ -175,7 +175,7 @@ def jobs(tier, seed=0):
     B(lambda: SramInst("sramB/5x4-on-8/paged-odd", 4, 5, bw=8, paging=0x10))
     B(lambda: SramInst("sramB/1024x32-on-32/paged", 32, 1024, bw=32, paging=0x800, init=list(range(7, 300, 3))))
     # long jobs first (the pool hands jobs out in list order): real bank arrays, then the big product spaces
-    heavy = [j for j in J if j.kw.get("cycles") in (1000, 10000)]
+    heavy = [j for j in J if j.kw.get("cycles") in (1000, 4000)]
     rest = [j for j in J if j not in heavy]
     return heavy + rest
 
@@ -400,7 +400,22 @@ def run_corpus(ctx):
     return out
 
 
+ASSUMPTIONS = [
+    "bank theorems that name a word by its address assume c.Fits: len(simple_csrs) <= paging/4 (words beyond the page are unreachable in the code as well; instance bank8/big/overflow-page)",
+    "atomic 'all at once for software writing in ascending address order' is proved for ordering=big only (known finding C12-atomic-little-ordering; negative witness in LitexProps/C12.lean, probe on the real code on every run)",
+    "memory windows: accesses beyond the populated window (clamped array index in the simulator) are outside the property; read/write theorems are stated for in-range words",
+    "register sizes >= 1; field reset values fit their fields; raw CSR size <= bus width (asserted by GenericBank)",
+    "CSRConstant and the name prefixing of AutoCSR are not modelled (no bus-visible behaviour; exported names belong to C14)",
+]
+
+
 def correspond(ctx):
+    ctx.assumptions = ASSUMPTIONS
+    ctx.rule = ("model/implementation correspondence cases; non-trivial = the cycle carries a bus read/write that selects "
+                "the bank/window or a device-side write, or (Python-level) the call places at least one fixed item / "
+                "resolves a field list; counted per distinct (state, input) pair")
+    ctx.extra_trusted = ["harness/csrlib.py: drives/observes the real CSR objects (storage/status/re/we/fields, bus) by "
+                         "object attribute, builds the Lean `open` line from the real CSRBankArray's own bank list"]
     ctx.jobs = jobs(ctx.tier, ctx.seed)
     corpus_dis = run_corpus(ctx)
     if corpus_dis:
